@@ -207,6 +207,9 @@ Example C04_nonvacuous :
   (let s := lrun (c04_case c04_sched_stalled) in
    c_disc (s_cs _ s 0) = true /\ length (c_q (s_cs _ s 0)) = 6 /\
    c_keep (s_cs _ s 0) = [true; true; true; true; true; true; false; false; false]) /\
+  (* the bound is attained once the stream is closed: 7 = max 3 0 + 3 + 1 *)
+  (let s := lrun (c04_case (c04_sched_stalled ++ [TClose; TClose])) in
+   c_closed (s_cs _ s 0) = true /\ length (c_q (s_cs _ s 0)) = 7) /\
   (let s := lrun (c04_case c04_sched) in
    c_disc (s_cs _ s 0) = false /\ length (c_q (s_cs _ s 0)) = 5 /\
    c_keep (s_cs _ s 0) =
